@@ -868,23 +868,19 @@ func (g *schemaGenerator) generateAllOfType(allOf []*schemas.Type, scope nameSco
 			continue
 		}
 
-		isCycle, cleanupCycle, cycleErr := g.detectCycle(typ)
-		if cycleErr != nil {
-			return nil, cycleErr
+		// A reference that is met again while its own list is being merged closes a cycle;
+		// merging the definition into itself would never end.
+		if _, isCycle := g.allOfScope[typ]; isCycle {
+			if len(allOf) == 1 {
+				return g.generateTypeInline(typ, scope)
+			}
+
+			return nil, fmt.Errorf("%w: %s", errAllOfCycle, typ.Ref)
 		}
 
-		defer cleanupCycle()
+		g.allOfScope[typ] = struct{}{}
 
-		if !isCycle {
-			continue
-		}
-
-		// Merging a definition into itself would never end.
-		if len(allOf) == 1 {
-			return g.generateTypeInline(typ, scope)
-		}
-
-		return nil, fmt.Errorf("%w: %s", errAllOfCycle, typ.Ref)
+		defer delete(g.allOfScope, typ)
 	}
 
 	rAllOf, err := g.resolveRefs(allOf)
